@@ -491,8 +491,39 @@ func c08Fencing(r *Run, m *ServerModel) {
 func c08Maps(r *Run, m *ServerModel) {
 	info := m.Info
 	n := 0
+	// A pathNode method that only other pathNode methods call (a private helper doing part of
+	// an update) is judged as part of its callers: their updates include the helper's.
+	isNodeMethod := func(fi *FuncInfo) bool {
+		return fi.Decl.Body != nil && fi.Decl.Recv != nil && strings.HasPrefix(fi.Key, "p9.pathNode.")
+	}
+	partOfCallers := func(fi *FuncInfo) bool {
+		sites := m.DB.Calls[fi.Key]
+		if len(sites) == 0 || fi.Obj.Exported() || m.valueUses(fi) > 0 {
+			return false
+		}
+		for _, s := range sites {
+			if !isNodeMethod(s.Root) || s.Root == fi {
+				return false
+			}
+		}
+		return true
+	}
+	var calleesOf func(fi *FuncInfo, depth int) []*FuncInfo
+	calleesOf = func(fi *FuncInfo, depth int) []*FuncInfo {
+		var out []*FuncInfo
+		if depth > 3 {
+			return out
+		}
+		for _, s := range m.DB.ByFunc[fi] {
+			if tf := r.L.FuncOf(callee(info, s.Call)); tf != nil && tf != fi && isNodeMethod(tf) && partOfCallers(tf) {
+				out = append(out, tf)
+				out = append(out, calleesOf(tf, depth+1)...)
+			}
+		}
+		return out
+	}
 	for _, fi := range r.L.funcsOfPkg("p9") {
-		if fi.Decl.Body == nil || fi.Decl.Recv == nil || !strings.HasPrefix(fi.Key, "p9.pathNode.") {
+		if !isNodeMethod(fi) || partOfCallers(fi) {
 			continue
 		}
 		res := m.resolver(fi)
@@ -513,23 +544,31 @@ func c08Maps(r *Run, m *ServerModel) {
 				}
 			}
 		}
-		ast.Inspect(fi.Decl.Body, func(nd ast.Node) bool {
-			switch v := nd.(type) {
-			case *ast.AssignStmt:
-				for _, l := range v.Lhs {
-					if ix, ok := unparen(l).(*ast.IndexExpr); ok {
-						record(ix.X, "insert", v.Pos())
+		parts := append([]*FuncInfo{fi}, calleesOf(fi, 0)...)
+		isPart := map[*FuncInfo]bool{}
+		for _, part := range parts {
+			isPart[part] = true
+		}
+		for _, part := range parts {
+			res = m.resolver(part)
+			ast.Inspect(part.Decl.Body, func(nd ast.Node) bool {
+				switch v := nd.(type) {
+				case *ast.AssignStmt:
+					for _, l := range v.Lhs {
+						if ix, ok := unparen(l).(*ast.IndexExpr); ok {
+							record(ix.X, "insert", v.Pos())
+						}
+					}
+				case *ast.CallExpr:
+					if id, ok := v.Fun.(*ast.Ident); ok && id.Name == "delete" && len(v.Args) == 2 {
+						if _, isB := info.Uses[id].(*types.Builtin); isB {
+							record(v.Args[0], "delete", v.Pos())
+						}
 					}
 				}
-			case *ast.CallExpr:
-				if id, ok := v.Fun.(*ast.Ident); ok && id.Name == "delete" && len(v.Args) == 2 {
-					if _, isB := info.Uses[id].(*types.Builtin); isB {
-						record(v.Args[0], "delete", v.Pos())
-					}
-				}
-			}
-			return true
-		})
+				return true
+			})
+		}
 		if len(ops["childRefs"]) == 0 && len(ops["childRefNames"]) == 0 {
 			continue
 		}
@@ -545,7 +584,7 @@ func c08Maps(r *Run, m *ServerModel) {
 		okLock := true
 		seen := false
 		for _, fa := range m.DB.Fields {
-			if fa.Root != fi || (fa.Key != "p9.pathNode.childRefs" && fa.Key != "p9.pathNode.childRefNames") {
+			if !isPart[fa.Root] || (fa.Key != "p9.pathNode.childRefs" && fa.Key != "p9.pathNode.childRefNames") {
 				continue
 			}
 			seen = true
